@@ -99,7 +99,7 @@ def okItems (items : List Item) : Bool :=
 def matchToks (items : List Item) : List Tok :=
   .lb :: ((items.map itemToks).flatten ++ [.rb])
 
-/-- fuel that suffices for a component (three per token) -/
+/-! fuel that suffices for a component (three per token) -/
 mutual
 def need : Node → Nat
   | .fn _ as => needArgs as + 3
@@ -109,5 +109,80 @@ def needArgs : Args → Nat
   | .nil => 3
   | .cons a rest => need a + needArgs rest + 3
 end
+
+end Spec.Match
+
+/-! ## Layout: tokens as text -/
+namespace Spec.Match
+open Model.Match
+
+/-- a token as written (`body` is the text of a comment) -/
+def tokText (t : Tok) (body : List Char) : List Char :=
+  match t with
+  | .lb => ['[']
+  | .rb => [']']
+  | .lp => ['(']
+  | .rp => [')']
+  | .comma => [',']
+  | .assign => ['=']
+  | .equals => ['=', '=']
+  | .when_ => ['-', '>']
+  | .comment => '~' :: body ++ ['~']
+  | .header s => '#' :: s
+  | .variable s => '@' :: s
+  | .reference s => '$' :: s
+  | .fname s => s
+  | .str s => '"' :: s ++ ['"']
+  | .num s => s
+  | .regex s => s
+
+/-- an unsigned number as the property's quantifier writes it: `12`, `12.`, `12.5`, `.5` -/
+def WFUnsigned (s : List Char) : Prop :=
+  (∃ ds fs, ds ≠ [] ∧ (∀ c ∈ ds, isDigit c = true) ∧ (∀ c ∈ fs, isDigit c = true) ∧ (s = ds ∨ s = ds ++ '.' :: fs)) ∨
+  (∃ fs, fs ≠ [] ∧ (∀ c ∈ fs, isDigit c = true) ∧ s = '.' :: fs)
+
+/-- the token texts the grammar admits -/
+def WFTok (t : Tok) (body : List Char) : Prop :=
+  match t with
+  | .header s =>
+    (s ≠ [] ∧ ∀ c ∈ s, nameCh c = true) ∨
+    (∃ b, b ≠ [] ∧ (∀ c ∈ b, qhCh c = true) ∧ s = '"' :: b ++ ['"'])
+  | .variable s => s ≠ [] ∧ ∀ c ∈ s, nameCh c = true
+  | .reference s => s ≠ [] ∧ ∀ c ∈ s, nameCh c = true
+  | .fname s => ∃ c r, s = c :: r ∧ c.isAlpha = true ∧ ∀ d ∈ r, nameCh d = true
+  | .str s => ∀ c ∈ s, c ≠ '"'
+  | .num s => WFUnsigned s ∨ (∃ u, WFUnsigned u ∧ (s = '+' :: u ∨ s = '-' :: u))
+  | .regex s => ∃ b, (∀ c ∈ b, c ≠ '/' ∧ c ≠ '\\') ∧ s = '/' :: b ++ ['/']
+  | .comment => ∀ c ∈ body, c ≠ '~'
+  | _ => True
+
+/-- would the character `c`, written right after `t`, run on into `t`? -/
+def glue (t : Tok) (c : Char) : Bool :=
+  match t with
+  | .header s => (s.getLast? != some '"') && nameCh c
+  | .variable _ => nameCh c
+  | .reference _ => nameCh c
+  | .fname _ => nameCh c
+  | .num _ => nameCh c
+  | .assign => c == '='
+  | _ => false
+
+structure Piece where
+  gap : List Char          -- white space written before the token
+  tok : Tok
+  body : List Char := []   -- the text of a comment
+
+def pieceText (p : Piece) : List Char := p.gap ++ tokText p.tok p.body
+
+def render (ps : List Piece) (trail : List Char) : List Char :=
+  (ps.map pieceText).flatten ++ trail
+
+/-- an admissible layout: gaps are white space, tokens are well formed, and two tokens are written
+    without a gap only where the second cannot run on into the first -/
+def WFLayout : List Piece → List Char → Prop
+  | [], trail => ∀ c ∈ trail, isWS c = true
+  | p :: rest, trail =>
+    (∀ c ∈ p.gap, isWS c = true) ∧ WFTok p.tok p.body ∧
+    (∀ c, (render rest trail).head? = some c → glue p.tok c = false) ∧ WFLayout rest trail
 
 end Spec.Match
